@@ -17,6 +17,7 @@ CONSTANTS
   AllowIoError = FALSE
   AllowResume = FALSE
   ForgetUncreated = TRUE
+  LockPerName = FALSE
   MaxInterrupts = 3
 INVARIANT TypeOK
 INVARIANT Inside
